@@ -69,7 +69,10 @@ RE_XML_DECLARATION = re.compile(r"^<\?xml[^>]*?>")
 
 # Capture the value of the XML processing instruction's encoding attribute.
 # Example: <?xml version="1.0" encoding="utf-8"?>
-RE_XML_PI_ENCODING = re.compile(rb'^<\?.*encoding=[\'"](.*?)[\'"].*\?>')
+# (The declaration may span several lines and may have spaces around "=".)
+RE_XML_PI_ENCODING = re.compile(
+    rb'^<\?[^>]*?encoding\s*=\s*[\'"]([^>]*?)[\'"][^>]*\?>'
+)
 
 
 def parse_content_type(line: str) -> tuple[str, str]:
